@@ -177,7 +177,7 @@ func acquisitionRoundRule(c *Ctx, rule string) {
 	}
 	// DefaultBackoffConfig constants (the documented 50ms / 5s / 2.0 / 0.1)
 	if dbc := m.libFunc("DefaultBackoffConfig"); dbc != nil {
-		for _, b := range dbc.Blocks {
+		for _, b := range liveBlocks(dbc) {
 			if ret, ok := b.Instrs[len(b.Instrs)-1].(*ssa.Return); ok {
 				v := returnValue(ret, 0)
 				want := map[string]string{"InitialBackoff": "const:50000000", "MaxBackoff": "const:5000000000", "BackoffMultiplier": "const:2", "Jitter": "const:0.1"}
@@ -317,7 +317,7 @@ func retryLoopRule(c *Ctx, rule string) {
 		ok   bool
 	}
 	found := map[string]bool{}
-	for _, b := range rb.Blocks {
+	for _, b := range liveBlocks(rb) {
 		ret, ok := b.Instrs[len(b.Instrs)-1].(*ssa.Return)
 		if !ok || b == rb.Recover {
 			continue
